@@ -206,7 +206,8 @@ class Svc:
         if lro:
             oi = m.options.Extensions[operations_pb2.operation_info]
             oi.response_type, oi.metadata_type = lro
-        if routing:
+        if routing is not None:
+            m.options.Extensions[routing_pb2.routing].SetInParent()     # an empty annotation is legal: no header at all
             for fld, tmpl in routing:
                 rp = m.options.Extensions[routing_pb2.routing].routing_parameters.add()
                 rp.field = fld
